@@ -9,8 +9,12 @@ import numpy as np
 from . import spaces
 
 
-class HarnessError(Exception):
-    """The machinery (not corankco) is wrong; exit code 2, never a VIOLATION."""
+from .harness import HarnessError  # noqa: E402  (the machinery, not corankco, is wrong: exit 2)
+
+
+class PivotMismatch(Exception):
+    """a recorded pivot is not in the sub-list the reference recursion is working on: the
+    implementation partitioned differently from the reference at an earlier step."""
 
 
 # ----------------------------------------------------------------------------- score
@@ -349,7 +353,7 @@ def ref_kwiksort(elems_in_order, table, pivots):
     def rec(lst):
         pivot = next(pivots)
         if pivot not in lst:
-            raise HarnessError("pivot %r not among %r" % (pivot, lst))
+            raise PivotMismatch("pivot %r not among %r" % (pivot, lst))
         before, same, after = [], [pivot], []
         for x in lst:
             if x == pivot:
